@@ -51,7 +51,7 @@ Fixpoint corr_hist (i : Z) (st : hstate) (h : list (hop * option outcome)) : lis
       match hstep default_fuel st o, ob with
       | (_, Some mo), Some io => map (fun c => (100 * i + c)%Z) (obs_diff mo io)
       | _, _ => []
-      end ++ corr_hist (i + 1)%Z (fst (hstep default_fuel st o)) r
+      end ++ corr_hist (i + 1)%Z (hnext st o) r          (* = fst (hstep _ st o), Proofs.hstep_next: no second evaluation *)
   end.
 
 Definition corr_codes (c : case) : list Z := corr_hist 0%Z (fst c) (snd c).
